@@ -114,6 +114,12 @@ func (tr *vfC15Trace) opLine(idx int) string {
 				o = "t"
 			}
 			fmt.Fprintf(&sb, "late:%s:%s:%s:%s", ev.sub, vfutil.HexS(ev.key), vfutil.HexS(tr.ids[ev.inst]), o)
+		case "can":
+			o := "d"
+			if ev.timedOut {
+				o = "n"
+			}
+			fmt.Fprintf(&sb, "can:%s:%s:%s:%s", ev.sub, vfutil.HexS(ev.key), vfutil.HexS(tr.ids[ev.inst]), o)
 		case "g":
 			fmt.Fprintf(&sb, "g:%s", vfutil.HexS(tr.ids[ev.inst]))
 		case "mv":
@@ -122,6 +128,8 @@ func (tr *vfC15Trace) opLine(idx int) string {
 			fmt.Fprintf(&sb, "mg:%s:%d", vfutil.HexS(ev.key), ev.pk)
 		case "mk":
 			fmt.Fprintf(&sb, "mk:%s", vfutil.HexS(ev.key))
+		case "lm", "la":
+			fmt.Fprintf(&sb, "%s:%s:%s:%d", ev.kind, vfutil.HexS(ev.key), vfutil.HexS(tr.ids[ev.inst]), ev.pk)
 		default:
 			fmt.Fprintf(&sb, "%s:%s:%s", ev.kind, vfutil.HexS(ev.key), vfutil.HexS(tr.ids[ev.inst]))
 		}
@@ -479,6 +487,23 @@ func (rn *vfC15Runner) runTrace(tr *vfC15Trace, src string) {
 			} else {
 				s.Count("ev_migrate_key_noop")
 			}
+		case "lm", "la":
+			// Leader() through the cluster client is TWO requests (COMMAND GETKEYS, then GET): between them the key's slot
+			// moves to node pk (lm: the GET is answered -MOVED) or starts MIGRATING there with the key gone over (la: -ASK)
+			in := insts[ev.inst]
+			if rn.st.clusterOn {
+				rn.st.VerifArmMidCall(ev.key, ev.pk, ev.kind == "la")
+			}
+			res := vfC15Call("l", in.election(ev.key))
+			out = vfC15Out("l", res)
+			if rn.st.clusterOn && rn.st.VerifMidCallFired() {
+				s.Count("cluster_resharding_in_mid_call_" + ev.kind)
+			} else {
+				s.Count("cluster_mid_call_not_reached_" + ev.kind)
+			}
+			_, post := rn.snapshot()
+			x.settle(n, "l", ev.key, in, now, pre, post, res, false)
+			x.foreignUntouched(n, "l", ev.key, in.id, pre, post)
 		case "c", "r", "x", "l":
 			in := insts[ev.inst]
 			res := vfC15Call(ev.kind, in.election(ev.key))
@@ -486,6 +511,38 @@ func (rn *vfC15Runner) runTrace(tr *vfC15Trace, src string) {
 			_, post := rn.snapshot()
 			x.settle(n, ev.kind, ev.key, in, now, pre, post, res, false)
 			x.foreignUntouched(n, ev.kind, ev.key, in.id, pre, post)
+		case "can":
+			// the call is made with a context that is ALREADY cancelled (runCluster's scope closed while the loop is
+			// about to campaign / the ticker about to renew / Resign after a stop): an election that honours its
+			// context must not have sent anything when it reports the error (n: nothing applied), one that ignores
+			// it answers as usual (d); either way the election object is used on
+			in := insts[ev.inst]
+			el := in.election(ev.key)
+			if ev.sub == "x" {
+				x.clearTold(ev.key, in.id)
+			}
+			ctx, cancel := context.WithCancel(context.Background())
+			cancel()
+			evalsBefore := rn.st.VerifEvals()
+			res := vfC15CallCtx(ctx, ev.sub, el)
+			if res.err != nil && errors.Is(res.err, context.Canceled) || (res.err != nil && rn.st.VerifEvals() == evalsBefore) {
+				tr.evs[n].timedOut = true
+				x.replay["trace"] = tr.opLine(idx)
+				out = "-"
+				s.Count("cancelled_ctx_call_refused_" + ev.sub)
+				if rn.st.VerifEvals() != evalsBefore {
+					s.Count("cancelled_ctx_call_refused_but_sent_" + ev.sub) // then the model diff shows it (n = not applied)
+				}
+			} else {
+				out = vfC15Out(ev.sub, res)
+				s.Count("cancelled_ctx_call_answered_" + ev.sub)
+				_, post := rn.snapshot()
+				x.settle(n, ev.sub, ev.key, in, now, pre, post, res, false)
+			}
+			{
+				_, post := rn.snapshot()
+				x.foreignUntouched(n, ev.sub, ev.key, in.id, pre, post)
+			}
 		case "late":
 			// The answer of this call comes AFTER the caller's deadline: the store holds the request, the caller's
 			// context ends (cancelled by the harness = its deadline passing, no clock involved), then the store
@@ -671,6 +728,11 @@ func (rn *vfC15Runner) runTrace(tr *vfC15Trace, src string) {
 	op = tr.opLine(idx) // a `late` event now says whether the call gave up (t) or waited (d)
 	s.Op(op, lines...)
 	s.Count("trace_" + src)
+	if rn.st.clusterOn {
+		s.Count("cfg_redisType_cluster")
+	} else {
+		s.Count("cfg_redisType_standalone")
+	}
 	s.Add("events", len(tr.evs))
 	if len(tr.ids) >= 2 && len(tr.evs) >= 4 {
 		s.Distinct(op)
@@ -891,10 +953,28 @@ func vfC15ParseTrace(line string) (*vfC15Trace, error) {
 			}
 		case p[0] == "mk" && len(p) == 2:
 			ev.key = string(vfutil.UnHex(p[1]))
+		case (p[0] == "lm" || p[0] == "la") && len(p) == 4:
+			ev.key = string(vfutil.UnHex(p[1]))
+			i, ok := idIdx[string(vfutil.UnHex(p[2]))]
+			if !ok {
+				return nil, fmt.Errorf("unknown instance in %q", tok)
+			}
+			ev.inst = i
+			if _, err := fmt.Sscan(p[3], &ev.pk); err != nil || ev.pk < 0 {
+				return nil, fmt.Errorf("bad mid-call resharding %q", tok)
+			}
 		case p[0] == "g" && len(p) == 2:
 			i, ok := idIdx[string(vfutil.UnHex(p[1]))]
 			if !ok {
 				return nil, fmt.Errorf("unknown instance in %q", tok)
+			}
+			ev.inst = i
+		case p[0] == "can" && len(p) == 5:
+			ev.sub = p[1]
+			ev.key = string(vfutil.UnHex(p[2]))
+			i, ok := idIdx[string(vfutil.UnHex(p[3]))]
+			if !ok || (ev.sub != "c" && ev.sub != "r" && ev.sub != "x") || (p[4] != "d" && p[4] != "n") {
+				return nil, fmt.Errorf("bad cancelled-context call %q", tok)
 			}
 			ev.inst = i
 		case p[0] == "late" && len(p) == 5:
@@ -1254,6 +1334,57 @@ func TestVerifC15(t *testing.T) {
 		}
 	}
 
+	// ---- DIMENSIONS drawn by force (session 5 audit), ALL lists of length <= 3 over the exhaustive alphabet each:
+	//  noTTL-stranger : the key holds a stranger's value WITHOUT expiry (a PERSISTed / hand-written key): nobody may win, ever
+	//  noTTL-own      : the key holds a's own value without expiry (an earlier incarnation's lease that was PERSISTed):
+	//                   a's campaign must succeed AND give it an expiry (EXPIRE), b must lose
+	//  prefix-ids     : instance ids "a" and "ab" (one a prefix of the other), the key holding "a" resp. "ab": Lua == is exact
+	//  empty-id       : instance ids "" and "a"
+	//  cancelled-ctx  : a call made with an already cancelled context in every position
+	{
+		const never = int64(1) << 62
+		type variant struct {
+			name string
+			ids  []string
+			k    []string
+			e    []vfEntry
+		}
+		variants := []variant{
+			{"noTTL_stranger", []string{"a", "b"}, []string{"k"}, []vfEntry{{val: "z", exp: never}}},
+			{"noTTL_own", []string{"a", "b"}, []string{"k"}, []vfEntry{{val: "a", exp: never}}},
+			{"prefix_ids_holder_short", []string{"ab", "a"}, []string{"k"}, []vfEntry{{val: "a", exp: 5000}}},
+			{"prefix_ids_holder_long", []string{"a", "ab"}, []string{"k"}, []vfEntry{{val: "ab", exp: 5000}}},
+			{"empty_id", []string{"", "a"}, nil, nil},
+			{"cancelled_ctx", []string{"a", "b"}, nil, nil},
+		}
+		base := []vfC15Ev{
+			{kind: "c", key: "k", inst: 0}, {kind: "c", key: "k", inst: 1}, {kind: "r", key: "k", inst: 0},
+			{kind: "x", key: "k", inst: 0}, {kind: "x", key: "k", inst: 1},
+			{kind: "t", delta: 1500}, {kind: "t", delta: 3001}, {kind: "l", key: "k", inst: 1},
+		}
+		for _, v := range variants {
+			alpha := base
+			if v.name == "cancelled_ctx" {
+				alpha = append(append([]vfC15Ev{}, base...), vfC15Ev{kind: "can", sub: "c", key: "k", inst: 0},
+					vfC15Ev{kind: "can", sub: "r", key: "k", inst: 0}, vfC15Ev{kind: "can", sub: "x", key: "k", inst: 0})
+			}
+			var rec func(prefix []vfC15Ev)
+			rec = func(prefix []vfC15Ev) {
+				if len(prefix) > 0 {
+					rn.runTrace(&vfC15Trace{now0: 7, ids: v.ids, ttls: []int{3, 3}, initK: v.k, initE: v.e,
+						evs: append([]vfC15Ev{}, prefix...)}, "dim_"+v.name)
+				}
+				if len(prefix) == 3 {
+					return
+				}
+				for _, e := range alpha {
+					rec(append(append([]vfC15Ev{}, prefix...), e))
+				}
+			}
+			rec(nil)
+		}
+	}
+
 	// ---- a CLUSTER-type input as lease store (cmd/syncer.go hands Input.Redis to NewRedisCluster as it is):
 	// the same event lists through the REAL cluster client (EVAL / GET routed by the key's slot, -MOVED
 	// handled by re-issuing the request on the node named) against a 3-node cluster double sharing the lease
@@ -1289,6 +1420,7 @@ func TestVerifC15(t *testing.T) {
 			{kind: "lc", key: "k", inst: 1, applied: true, how: "e"},
 			{kind: "mv", key: "k", pk: 0}, {kind: "mv", key: "k", pk: 1}, {kind: "l", key: "k", inst: 1},
 			{kind: "mg", key: "k", pk: 2}, {kind: "mk", key: "k"},
+			{kind: "lm", key: "k", inst: 1, pk: 1}, {kind: "la", key: "k", inst: 0, pk: 2},
 		}
 		maxLen := vfutil.Scale(3, 4)
 		var rec func(prefix []vfC15Ev)
